@@ -35,6 +35,7 @@ import (
 	"net"
 	"os"
 	"os/exec"
+	"path/filepath"
 	"sort"
 	"strconv"
 	"strings"
@@ -57,6 +58,8 @@ func init() {
 var serverScenarios = []struct{ name, prop string }{
 	{"catalogue-lagging", "C14"},
 	{"catalogue-random", "C14"},
+	{"catalogue-replay", "C14"},
+	{"restart-replay", "C18"},
 	{"restart-serving", "C18"},
 	{"placement-members", "C16"},
 	{"membership", "C20"},
@@ -82,6 +85,10 @@ func runServers(c *Ctx) {
 				srvCatalogueLagging(c, false, rng.Intn(2) == 0)
 			case "catalogue-random":
 				srvCatalogueRandom(c, rng, c.Thorough())
+			case "catalogue-replay":
+				srvReplayCreateDelete(c, "C14", rng)
+			case "restart-replay":
+				srvReplayCreateDelete(c, "C18", rng)
 			case "restart-serving":
 				srvRestartServing(c, rng.Intn(2) == 0)
 			case "placement-members":
@@ -116,6 +123,12 @@ type srvNode struct {
 }
 
 type srvCluster struct {
+	// catalogue bookkeeping for the oracles: a Create that returned an error may still have been
+	// committed (an unacknowledged write may take effect), so listings may hold datasets nobody was
+	// told about — but never one whose deletion was acknowledged, and always every acknowledged one
+	deletedAcked  map[string]bool
+	failedCreates int
+
 	c     *Ctx
 	out   *srvOut
 	prop  string
@@ -247,6 +260,31 @@ func (c *srvCluster) startOnce(n *srvNode) error {
 	return nil
 }
 
+// nodeLog: the lines of a member's own log that tell what it did to its catalogue
+func (c *srvCluster) nodeLog(id uint64, max int) string {
+	d := os.Getenv("VERIF_SRVLOG")
+	if d == "" {
+		d = c.base
+	}
+	b, err := ioutil.ReadFile(fmt.Sprintf("%s/node-%d.log", d, id))
+	if err != nil {
+		return ""
+	}
+	var keep []string
+	for _, l := range strings.Split(string(b), "\n") {
+		if strings.HasPrefix(l, "==== start") || strings.Contains(l, "Create dataset") || strings.Contains(l, "napshot") || strings.Contains(l, "level=error") || strings.Contains(l, "level=fatal") || strings.Contains(l, "Unloaded") || strings.Contains(l, "became leader") || strings.Contains(l, "elected leader") {
+			if i := strings.Index(l, "msg="); i >= 0 {
+				l = l[i:]
+			}
+			keep = append(keep, clip(l, 160))
+		}
+	}
+	if len(keep) > max {
+		keep = keep[len(keep)-max:]
+	}
+	return strings.Join(keep, " | ")
+}
+
 func (c *srvCluster) reason(n *srvNode) string {
 	e := n.stderr.String()
 	for _, l := range strings.Split(e, "\n") {
@@ -356,7 +394,11 @@ func childServerNode(args []string) {
 	id, _ := strconv.ParseUint(args[0], 10, 64)
 	cfg := &anndb.Config{RaftNodeId: id, Port: args[1], DataDir: args[2], JoinNodes: args[3:]}
 	log.SetOutput(ioutil.Discard)
-	if d := os.Getenv("VERIF_SRVLOG"); d != "" { // debugging aid: the node's own log, appended across restarts
+	{ // the node's own log, appended across restarts, next to its data directory (quoted in findings)
+		d := os.Getenv("VERIF_SRVLOG")
+		if d == "" {
+			d = filepath.Dir(args[2])
+		}
 		if f, err := os.OpenFile(fmt.Sprintf("%s/node-%d.log", d, id), os.O_APPEND|os.O_CREATE|os.O_WRONLY, 0644); err == nil {
 			log.SetOutput(f)
 			fmt.Fprintf(f, "==== start %v\n", args)
@@ -415,6 +457,8 @@ func (c *srvCluster) createPatiently(via uint64, dim, parts, repl uint32, patien
 		if err == nil {
 			return d, attempts, nil
 		}
+		c.failedCreates++
+		c.out.Local("create via %d, attempt %d: %v (it may have been committed all the same)", via, attempts, err)
 		last = err
 		time.Sleep(400 * time.Millisecond)
 	}
@@ -425,7 +469,31 @@ func (c *srvCluster) delete(via uint64, id []byte) error {
 	ctx, cancel := context.WithTimeout(context.Background(), 8*time.Second)
 	defer cancel()
 	_, err := pb.NewDatasetManagerClient(c.nodes[via].conn).Delete(ctx, &pb.UUIDRequest{Id: id})
+	if err == nil {
+		if c.deletedAcked == nil {
+			c.deletedAcked = map[string]bool{}
+		}
+		c.deletedAcked[shortId(id)] = true
+	}
 	return err
+}
+
+// matches: a listing against the acknowledged history — every dataset of `want` is listed, none whose
+// deletion was acknowledged is, and anything else only if some Create call failed (its effect is unknown)
+func (c *srvCluster) matches(listed, want []string) bool {
+	have := map[string]bool{}
+	for _, l := range listed {
+		have[l] = true
+		if c.deletedAcked[l] {
+			return false
+		}
+	}
+	for _, w := range want {
+		if !have[w] {
+			return false
+		}
+	}
+	return len(listed) == len(want) || (c.failedCreates > 0 && len(listed) <= len(want)+c.failedCreates)
 }
 
 // list returns the node's catalogue as canonical lines "id dim space p1:n1,n2;p2:…" sorted by id
@@ -523,6 +591,10 @@ func (c *srvCluster) snapshotNow() {
 func (c *srvCluster) agree(ids []uint64, want []string, patience time.Duration) (map[uint64][]string, bool) {
 	got := map[uint64][]string{}
 	ok := waitForSlow(patience, func() bool {
+		if c.died() {
+			patience = 0
+			return true // reported; the caller sees !ok below
+		}
 		for _, id := range ids {
 			l, err := c.list(id)
 			if err != nil {
@@ -533,7 +605,7 @@ func (c *srvCluster) agree(ids []uint64, want []string, patience time.Duration) 
 		}
 		for _, id := range ids {
 			if want != nil {
-				if strings.Join(idsOf(got[id]), " ") != strings.Join(want, " ") {
+				if !c.matches(idsOf(got[id]), want) {
 					return false
 				}
 			}
@@ -543,6 +615,13 @@ func (c *srvCluster) agree(ids []uint64, want []string, patience time.Duration) 
 		}
 		return true
 	})
+	if ok { // (a death ends the wait early)
+		for _, id := range ids {
+			if !c.up(id) {
+				ok = false
+			}
+		}
+	}
 	return got, ok
 }
 
@@ -653,7 +732,7 @@ func srvCatalogueLagging(cx *Ctx, emptyAtSnapshot, hard bool) {
 	got, ok := c.agree([]uint64{1, 2, 3}, want, 60*time.Second)
 	out.Nontrivial("lagging-member-snapshot")
 	if !ok {
-		out.Violate("C14", "C14/servers/lagging-member-differs", fmt.Sprintf("a member that was down while a dataset was deleted (catalogue empty at the snapshot: %v) and the others compacted their log does not list what they list 60 s after coming back; acknowledged catalogue %v; %s", emptyAtSnapshot, want, fmtLists(got)))
+		out.Violate("C14", "C14/servers/lagging-member-differs", fmt.Sprintf("a member that was down while a dataset was deleted (catalogue empty at the snapshot: %v) and the others compacted their log does not list what they list 60 s after coming back; acknowledged catalogue %v; %s; member 3's own log: %s", emptyAtSnapshot, want, fmtLists(got), c.nodeLog(3, 40)))
 		return
 	}
 	// and once more after a restart of the member that was caught up by the snapshot
@@ -771,6 +850,75 @@ func srvCatalogueRandom(cx *Ctx, r *Rng, thorough bool) {
 	out.Nontrivial("cluster-restart")
 	if !ok || strings.Join(got[1], "|") != before {
 		out.Violate("C14", "C14/servers/restart-differs", fmt.Sprintf("after a restart of the whole cluster the members do not list the catalogue they listed before (%v): %s", want, fmtLists(got)))
+	}
+}
+
+// ---- C14 / C18: a node whose catalogue log holds creations followed by deletions restarts: the replay
+// creates each dataset (its partitions' raft groups start) and deletes it again at once (they are
+// stopped and their logs wiped); the node must come through it, list the acknowledged catalogue and
+// go on serving
+func srvReplayCreateDelete(cx *Ctx, prop string, r *Rng) {
+	c := newSrvCluster(cx, prop)
+	out := c.out
+	out.Begin("servers replay of creations and deletions (" + prop + ")")
+	defer out.End()
+	defer c.close()
+	if err := c.start(1); err != nil {
+		out.Local("set-up failed: %v", err)
+		return
+	}
+	keep, _, err := c.createPatiently(1, 2, 2, 1, 30*time.Second)
+	if err != nil {
+		out.Local("set-up: create failed: %v", err)
+		return
+	}
+	n := 0
+	for i := 0; i < cx.Pick(30, 80); i++ {
+		d, _, err := c.createPatiently(1, uint32(1+r.Intn(3)), uint32(1+r.Intn(6)), 1, 20*time.Second)
+		if err != nil {
+			out.Local("create failed: %v", err)
+			continue
+		}
+		if err := c.delete(1, d.GetId()); err != nil {
+			out.Local("delete failed: %v", err)
+			return
+		}
+		n++
+	}
+	want := []string{shortId(keep.GetId())}
+	out.Local("one node: a dataset that stays, and %d datasets created and deleted again (all acknowledged)", n)
+	for round := 0; round < 4; round++ {
+		c.stop(1, round%2 == 0)
+		if err := c.start(1); err != nil {
+			out.Violate(prop, prop+"/servers/restart-fails", fmt.Sprintf("the node does not start again over its data directory (its catalogue log holds %d creations each followed by the deletion of that dataset): %v", n, err))
+			return
+		}
+		out.Nontrivial("replay-create-delete")
+		got, ok := c.agree([]uint64{1}, want, 40*time.Second)
+		if c.died() {
+			return
+		}
+		if !ok {
+			out.Violate(prop, prop+"/servers/restart-differs", fmt.Sprintf("after restart %d the node does not list the acknowledged catalogue %v within 40 s: %s", round+1, want, fmtLists(got)))
+			return
+		}
+		// it goes on serving: another creation and deletion
+		d, _, err := c.createPatiently(1, 2, 3, 1, 30*time.Second)
+		if c.died() {
+			return
+		}
+		if err != nil {
+			out.Violate(prop, prop+"/servers/not-serving-after-restart", fmt.Sprintf("after restart %d the node lists its catalogue but does not apply a new creation within 30 s: %v", round+1, err))
+			return
+		}
+		if err := c.delete(1, d.GetId()); err != nil {
+			out.Local("delete after restart failed: %v", err)
+		}
+		n++
+		time.Sleep(300 * time.Millisecond)
+		if c.died() {
+			return
+		}
 	}
 }
 
